@@ -147,6 +147,7 @@ func (pkg *Package) schemaFromDesc(context fieldContext, schema *schema_j5pb.Fie
 				fieldContext: context,
 				Ref:          item.AsRef(),
 				Rules:        st.Oneof.Rules,
+				ListRules:    st.Oneof.ListRules,
 				Ext:          st.Oneof.Ext,
 			}, nil
 		case *schema_j5pb.OneofField_Ref:
@@ -155,6 +156,7 @@ func (pkg *Package) schemaFromDesc(context fieldContext, schema *schema_j5pb.Fie
 				fieldContext: context,
 				Ref:          ref,
 				Rules:        st.Oneof.Rules,
+				ListRules:    st.Oneof.ListRules,
 				Ext:          st.Oneof.Ext,
 			}, nil
 		default:
@@ -166,9 +168,10 @@ func (pkg *Package) schemaFromDesc(context fieldContext, schema *schema_j5pb.Fie
 		case *schema_j5pb.EnumField_Enum:
 			item := pkg.enumSchemaFromDesc(inner.Enum)
 			return &EnumField{
-				Ref:   item.AsRef(),
-				Rules: st.Enum.Rules,
-				Ext:   st.Enum.Ext,
+				Ref:       item.AsRef(),
+				Rules:     st.Enum.Rules,
+				ListRules: st.Enum.ListRules,
+				Ext:       st.Enum.Ext,
 			}, nil
 		case *schema_j5pb.EnumField_Ref:
 			ref, _ := pkg.PackageSet.refTo(inner.Ref.Package, inner.Ref.Schema)
@@ -293,6 +296,7 @@ func (pkg *Package) schemaFromDesc(context fieldContext, schema *schema_j5pb.Fie
 			fieldContext: context,
 			OnlyDefined:  st.Any.OnlyDefined,
 			Types:        stringSliceConvert[string, protoreflect.FullName](st.Any.Types),
+			ListRules:    st.Any.ListRules,
 		}, nil
 
 	default:
@@ -363,6 +367,7 @@ func (pkg *Package) enumSchemaFromDesc(sch *schema_j5pb.Enum) *EnumSchema {
 			name:        src.Name,
 			description: src.Description,
 			number:      src.Number,
+			Info:        src.Info,
 		}
 	}
 	return &EnumSchema{
@@ -372,7 +377,8 @@ func (pkg *Package) enumSchemaFromDesc(sch *schema_j5pb.Enum) *EnumSchema {
 			name:        sch.Name,
 			pkg:         pkg,
 		},
-		Options: opts,
+		Options:    opts,
+		InfoFields: sch.Info,
 	}
 }
 
